@@ -34,6 +34,7 @@ type vnode struct {
 	iters map[*loopInfo]int
 	kind  int
 	loop  *loopInfo // for nkUnwind / nkInvStep
+	from  *ssa.BasicBlock // source of the back edge (nkInvStep)
 	preds []*vedge
 	succs []*vedge
 	out   *State
@@ -89,7 +90,7 @@ type hdrSnap struct {
 	st       *State
 	vars     map[string]Val
 	pre      *State
-	keys     map[string]string
+	keys     map[string]*writeShape
 	anything bool
 }
 
@@ -114,15 +115,18 @@ func ctxKey(iters map[*loopInfo]int) string {
 	return strings.Join(ps, ",")
 }
 
-func (in *inst) node(b *ssa.BasicBlock, iters map[*loopInfo]int, kind int, l *loopInfo) (*vnode, bool) {
+func (in *inst) node(b *ssa.BasicBlock, iters map[*loopInfo]int, kind int, l *loopInfo, from *ssa.BasicBlock) (*vnode, bool) {
 	key := fmt.Sprintf("%d/%s/%d", b.Index, ctxKey(iters), kind)
 	if l != nil {
 		key += fmt.Sprintf("/L%d", l.ord)
 	}
+	if kind == nkInvStep && from != nil {
+		key += fmt.Sprintf("/from%d", from.Index)
+	}
 	if n, ok := in.nodes[key]; ok {
 		return n, false
 	}
-	n := &vnode{blk: b, ctx: ctxKey(iters), iters: iters, kind: kind, loop: l}
+	n := &vnode{blk: b, ctx: ctxKey(iters), iters: iters, kind: kind, loop: l, from: from}
 	in.nodes[key] = n
 	return n, true
 }
@@ -144,7 +148,7 @@ func (in *inst) buildGraph() {
 		}
 	}
 	in.nodes = map[string]*vnode{}
-	entry, _ := in.node(in.fn.Blocks[0], map[*loopInfo]int{}, nkNormal, nil)
+	entry, _ := in.node(in.fn.Blocks[0], map[*loopInfo]int{}, nkNormal, nil, nil)
 	var post []*vnode
 	visited := map[*vnode]bool{}
 	var dfs func(n *vnode)
@@ -178,7 +182,7 @@ func (in *inst) buildGraph() {
 						iters[l] = 0
 					}
 				}
-				t, _ := in.node(s, iters, kind, lp)
+				t, _ := in.node(s, iters, kind, lp, n.blk)
 				e := &vedge{from: n, to: t, succIdx: si}
 				n.succs = append(n.succs, e)
 				t.preds = append(t.preds, e)
@@ -499,7 +503,7 @@ func (in *inst) propsFor(cl *Clause) []string {
 
 func (in *inst) safety(n *vnode, st *State, what, goal string, pos token.Pos) {
 	fv := in.fv
-	if in.panicOK && (what == "index" || what == "slice" || what == "nil") {
+	if in.panicOK && (what == "index" || what == "slice" || what == "nil" || what == "typeassert" || what == "makeslice") {
 		fv.assume(st.reach, goal)
 		return
 	}
@@ -539,11 +543,15 @@ func (in *inst) execInstr(n *vnode, st *State, ins ssa.Instruction) {
 	case *ssa.Alloc:
 		loc := fv.newObject(st)
 		fv.zeroInit(st, loc, x.Type().(*types.Pointer).Elem())
-		in.setVal(n, x, Val{K: KLoc, T: loc, Typ: x.Type()})
+		av := Val{K: KLoc, T: loc, Typ: x.Type()}
+		fv.assumePtrType("true", av)
+		in.setVal(n, x, av)
 	case *ssa.FieldAddr:
 		p := in.lookup(n, x.X)
 		in.safety(n, st, "nil", not(eq(p.T, "LNil")), x.Pos())
-		in.setVal(n, x, Val{K: KLoc, T: fv.def("fa", "Loc", lfield(p.T, x.Field)), Typ: x.Type()})
+		fav := Val{K: KLoc, T: fv.def("fa", "Loc", lfield(p.T, x.Field)), Typ: x.Type()}
+		fv.assumePtrType(st.reach, fav)
+		in.setVal(n, x, fav)
 	case *ssa.Field:
 		s := in.lookup(n, x.X)
 		if x.Field >= len(s.Fs) {
@@ -605,7 +613,9 @@ func (in *inst) execInstr(n *vnode, st *State, ins ssa.Instruction) {
 	case *ssa.MakeSlice:
 		ln, cp := in.lookup(n, x.Len), in.lookup(n, x.Cap)
 		l64, c64 := in.toBV64(ln, x.Len.Type()), in.toBV64(cp, x.Cap.Type())
-		in.safety(n, st, "makeslice", and("(bvsle #x0000000000000000 "+l64+")", "(bvsle "+l64+" "+c64+")", "(bvslt "+c64+" #x0000400000000000)"), x.Pos())
+		in.safety(n, st, "makeslice", and("(bvsle #x0000000000000000 "+l64+")", "(bvsle "+l64+" "+c64+")"), x.Pos())
+		// an allocation that succeeds is of bounded size (the Go runtime rejects larger requests)
+		fv.assume(st.reach, "(bvslt "+c64+" #x0000400000000000)")
 		arr := fv.newObject(st)
 		et := x.Type().Underlying().(*types.Slice).Elem()
 		in.zeroRegion(st, arr, et)
@@ -734,6 +744,14 @@ func (in *inst) unop(n *vnode, st *State, x *ssa.UnOp) {
 			if s := fv.eng.sentinels[g]; s != nil {
 				in.setVal(n, x, fv.sentinelVal(s, x.Type()))
 				return
+			}
+		}
+		if ia, ok := x.X.(*ssa.IndexAddr); ok {
+			if g, ok := ia.X.(*ssa.Global); ok {
+				if ti := fv.eng.tables[g]; ti != nil {
+					in.setVal(n, x, in.tableRow(n, st, ti, ia, x.Type()))
+					return
+				}
 			}
 		}
 		a := in.lookup(n, x.X)
@@ -1149,7 +1167,11 @@ func (in *inst) unbox(st *State, v Val, t types.Type) Val {
 	fv := in.fv
 	k, _, _ := kindOf(t)
 	if k == KLoc {
-		return Val{K: KLoc, T: fv.def("p", "Loc", "(idat "+v.T+")"), Typ: t}
+		pv := Val{K: KLoc, T: fv.def("p", "Loc", "(idat "+v.T+")"), Typ: t}
+		if fv.boundDepth == 0 {
+			fv.assumePtrType(eq("(itag "+v.T+")", fmt.Sprint(fv.eng.tagOf(t))), pv)
+		}
+		return pv
 	}
 	save := fv.boundDepth
 	r := fv.load(st, "(idat "+v.T+")", t)
@@ -1272,7 +1294,7 @@ func (in *inst) siteKey(pos token.Pos, n *vnode) string {
 // assumeFieldInv: a value loaded from a field under invariant satisfies it.
 func (fv *FnVC) assumeFieldInv(st *State, fa *ssa.FieldAddr, v Val) {
 	fi, _ := fv.eng.fieldInvOf(fa)
-	if fi == nil || fv.boundDepth > 0 {
+	if fi == nil || fv.boundDepth > 0 || strings.HasPrefix(fi.Clause.Name, "nowrite") {
 		return
 	}
 	ce := &cenv{fv: fv, vars: map[string]Val{"v": v}, st: st, pkg: fv.eng.tpkgs[fi.PkgPath], allocOld: fv.allocEntry, where: "fieldinv " + fi.Type + "." + fi.Field}
@@ -1282,4 +1304,36 @@ func (fv *FnVC) assumeFieldInv(st *State, fa *ssa.FieldAddr, v Val) {
 		return
 	}
 	fv.assume(st.reach, t)
+}
+
+// tableRow: the value of row idx of a constant table. The row is a slice in
+// immutable global storage; its length and elements are given by the spec
+// functions generated from the table's source literal.
+func (in *inst) tableRow(n *vnode, st *State, ti *tableInfo, ia *ssa.IndexAddr, t types.Type) Val {
+	fv := in.fv
+	idx := in.toBV64(in.lookup(n, ia.Index), ia.Index.Type())
+	arrT := ia.X.Type().(*types.Pointer).Elem().Underlying().(*types.Array)
+	in.safety(n, st, "index", and("(bvsle #x0000000000000000 "+idx+")", "(bvslt "+idx+" "+bv64(arrT.Len())+")"), ia.Pos())
+	sl, ok := types.Unalias(t).Underlying().(*types.Slice)
+	if !ok {
+		fv.outOfSubset("table with non-slice rows")
+		return fv.unknown(st, t, "row")
+	}
+	row := fv.unknown(st, t, "row")
+	ln := "(spec_" + ti.name + "_len " + idx + ")"
+	fv.assume(st.reach, and(eq("(slen "+row.T+")", ln), eq("(scap "+row.T+")", ln), eq("(soff "+row.T+")", "#x0000000000000000"),
+		not(eq("(sarr "+row.T+")", "LNil")), "(< (root (sarr "+row.T+")) 0)"))
+	zv := fv.zeroVal(sl.Elem())
+	h := fv.heapOf(st, leafKey(sl.Elem()), zv.sortOf())
+	for j := 0; j < ti.maxLen; j++ {
+		jb := bv64(int64(j))
+		el := fv.loadRaw(h, lelem("(sarr "+row.T+")", jb))
+		want := "(spec_" + ti.name + "_at " + idx + " " + jb + ")"
+		if zv.W != 64 {
+			want = fmt.Sprintf("((_ extract %d 0) %s)", zv.W-1, want)
+		}
+		fv.assume(st.reach, implies("(bvslt "+jb+" "+ln+")", eq(el, want)))
+	}
+	fv.note("constant table " + ti.name + " read from its source literal (never written outside init: checked)")
+	return row
 }
